@@ -25,7 +25,7 @@ def obligations(tier):
     nc = 4 if tier == 'quick' else 6
     obs.append(Ob(name='c18_rng_lock_discipline_n%d' % nc, harness='harness/C18/rng.c', entry='h_rng', defs=['NCALL=%d' % nc], extra=['stubs/vp_libc.c'],
                   srcs=[('src/core/rng.c', {'defs': ['static='], 'remove': ['rngESRead']}), 'src/core/mem.c', ('src/core/util.c', {'remove': ['utilOnExit']}), 'src/core/str.c'],
-                  unwind=nc + 8, unwindset={'memWipe.0': 40}, timeout=900, replay='none', noreplay_reason='monitor harness with stubbed kernels',
+                  unwind=40, timeout=900, replay='none', noreplay_reason='monitor harness with stubbed kernels',
                   funcs=['rngCreate', 'rngStepR', 'rngStepR2', 'rngRekey', 'rngIsValid', 'rngClose'],
                   stubs=['mtMtx* -> lock-depth monitor', 'brngCTR*/beltHash* -> monitors asserting the lock is held', 'rngESRead -> arbitrary outcome', 'blobCreate/blobClose -> malloc/free + monitor'],
                   bound='every sequence of %d API calls chosen by the solver from {Create, StepR, StepR2, Rekey, IsValid, Close} (calls other than Create only while a reference is held), every outcome of every entropy source' % nc))
